@@ -32,16 +32,28 @@ def log(*a):
 def build_executor(f32=False):
     """(Re)build the executor against /repo's current working tree; cargo decides what to recompile."""
     tdir = "target-f32" if f32 else "target"
+    harness = HARNESS
+    alt = os.environ.get("VERIF_REPO")
+    if alt:
+        # self-tests only: build the same executor against a scratch copy of the repository (outside /repo),
+        # so that /repo itself is never touched; registered checks always use /repo
+        harness = os.path.join(alt.rstrip("/") + "_harness")
+        os.makedirs(os.path.join(harness, "src"), exist_ok=True)
+        os.makedirs(os.path.join(harness, ".cargo"), exist_ok=True)
+        for rel in ("src/main.rs", ".cargo/config.toml", "Cargo.lock"):
+            shutil.copy(os.path.join(HARNESS, rel), os.path.join(harness, rel))
+        open(os.path.join(harness, "Cargo.toml"), "w").write(
+            open(os.path.join(HARNESS, "Cargo.toml")).read().replace('path = "/repo"', 'path = "%s"' % alt))
     cmd = ["cargo", "build", "--release", "--offline", "--target-dir", tdir]
     if f32:
         cmd += ["--features", "f32"]
     env = dict(os.environ, CARGO_NET_OFFLINE="true")
     t0 = time.time()
-    p = subprocess.run(cmd, cwd=HARNESS, env=env, capture_output=True, text=True)
+    p = subprocess.run(cmd, cwd=harness, env=env, capture_output=True, text=True)
     if p.returncode != 0:
         raise ToolError("cargo build failed:\n" + p.stderr[-4000:])
     log("[build] executor%s ready in %.1fs" % (" (f32)" if f32 else "", time.time() - t0))
-    return os.path.join(HARNESS, tdir, "release", "corgi-verif-harness")
+    return os.path.join(harness, tdir, "release", "corgi-verif-harness")
 
 
 def write_programs(path, cases):
